@@ -185,7 +185,14 @@ class Script:
                     if i >= 0:
                         return (('value', 'file', 'decoded'), 'decoded file: var %d element %d is %r, model says %r' % (v, i, got[i], exp[i]))
             self.expect.append((ln, [0], chk))
-        self.op('*', 'ledger', expect_rc=None)
+        ln = self.op('*', 'ledger', expect_rc=None)
+
+        def led(r, rank, ln=ln):
+            # C17's invariant on every program of this check: once every file is closed the library holds no memory and no MPI object
+            bad = [k for k in ('malloc', 'types', 'comms', 'infos', 'files', 'reqs') if r.get(k) not in (None, '0')]
+            if bad and r.get('nopen') == '0':
+                return (('leak', 'ledger', ','.join(bad)), 'line %d rank %d: after the last close the library still holds %s' % (ln, rank, {k: r.get(k) for k in bad}))
+        self.expect.append((ln, None, led))
         return self
 
     def judge(self, res):
